@@ -1,4 +1,132 @@
-import LabreaModel.Eval
+/-
+  C17 — an unreliable cache backend costs recomputation, never a wrong value or failure.
+
+  The scripted backend of the model (`CacheKind.scripted`, `Fault`) follows the Cache contract but may, at any
+  call, report a miss, forget the entry, claim an entry exists (`lieExists`) and then fail to retrieve it
+  (`failGet`), or fail to read back what was just stored.  The theorems quantify over ALL fault scripts (the
+  script is part of the state `s`), not over the first N calls.
+-/
+import LabreaModel.CacheLemmas
 namespace Labrea
-theorem c17_placeholder : True := trivial
+
+variable (env : Env) (run : Run) (x : Expr) (c : Nat) (o : V)
+
+/-- whatever the script says, a successful `get` returns an entry that IS stored under the node's fingerprint:
+    the backend never fabricates a value -/
+theorem faulty_get_is_stored (hk : env.cacheKind c = .scripted) (s s' : St) (v : V)
+    (h : backendGet env run x c o s = some (.ok v, s')) :
+    ∃ (fp : V) (s1 s2 : St), fingerprintOf run x o s = some (.ok fp, s1) ∧
+      entryLookup fp (s2.cacheEntries c) = some v ∧ s2.caches = s1.caches :=
+  scripted_get_from_store env run x c o hk s s' v h
+
+/-- a claimed-but-unretrievable entry (lie-exists then fail-get) falls through to recomputation -/
+theorem lie_exists_then_fail_get_recomputes (s s1 s2 : St) (he : existsReq env run x c o s = some (.ok true, s1))
+    (hg : getReq env run x c o s1 = some (.error cacheGetFailure, s2)) :
+    cachedOp env run x c .evaluate o s = (do let v ← run .evaluate x o; setReq env run x c o v) s2 :=
+  cached_get_failure_recomputes env run x c o s s1 s2 he hg
+
+/-- a reported miss recomputes -/
+theorem reported_miss_recomputes (s s1 : St) (he : existsReq env run x c o s = some (.ok false, s1)) :
+    cachedOp env run x c .evaluate o s = (do let v ← run .evaluate x o; setReq env run x c o v) s1 :=
+  cached_miss env run x c o s s1 he
+
+/-- the set request returns the computed value or what the backend read back (a stored entry): failing to
+    read back what was just stored costs nothing -/
+theorem store_then_failed_readback_returns_value (s s' : St) (v w : V)
+    (h : setReq env run x c o v s = some (.ok w, s')) :
+    w = v ∨ ∃ s1 s2, backendGet env run x c o s1 = some (.ok w, s2) :=
+  setReq_value env run x c o s s' v w h
+
+/-- **faulty_backend_correct (value origin).** Every value `Cached.evaluate` returns under ANY fault script is
+    either the freshly computed value of the inner expression or an entry stored under the node's fingerprint.
+    (That stored entries are the right values for their fingerprints is C01's invariant.) -/
+theorem faulty_value_origin (hk : env.cacheKind c = .scripted) (s s' : St) (w : V)
+    (h : cachedOp env run x c .evaluate o s = some (.ok w, s')) :
+    (∃ s1 s2, run .evaluate x o s1 = some (.ok w, s2)) ∨
+    (∃ (fp : V) (t t1 t2 : St), fingerprintOf run x o t = some (.ok fp, t1) ∧
+        entryLookup fp (t2.cacheEntries c) = some w ∧ t2.caches = t1.caches) := by
+  simp only [cachedOp, bind_run] at h
+  -- phase 1: the lookup
+  cases hh : cacheLookup env run x c o s with
+  | none => simp [hh] at h
+  | some p =>
+    obtain ⟨r, s1⟩ := p
+    cases r with
+    | error e => simp [hh] at h
+    | ok hit =>
+      simp only [hh] at h
+      cases hit with
+      | some v =>
+        -- a hit: the value came out of getReq, i.e. out of backendGet
+        simp only [pure_run, Option.some.injEq, Prod.mk.injEq, Except.ok.injEq] at h
+        obtain ⟨rfl, rfl⟩ := h
+        right
+        simp only [cacheLookup, bind_run] at hh
+        cases he : existsReq env run x c o s with
+        | none => simp [he] at hh
+        | some q =>
+          obtain ⟨r2, s2⟩ := q
+          cases r2 with
+          | error e => simp [he] at hh
+          | ok b =>
+            simp only [he] at hh
+            cases b with
+            | false => simp at hh
+            | true =>
+              simp only [if_true, handle, bind_run] at hh
+              cases hg : getReq env run x c o s2 with
+              | none => simp [hg] at hh
+              | some q3 =>
+                obtain ⟨r3, s3⟩ := q3
+                cases r3 with
+                | error e =>
+                  simp only [hg] at hh
+                  by_cases hc : e = cacheGetFailure <;> simp [hc] at hh
+                | ok v' =>
+                  simp only [hg, pure_run, Option.some.injEq, Prod.mk.injEq, Except.ok.injEq] at hh
+                  obtain ⟨hv, _⟩ := hh
+                  cases hv
+                  -- getReq = emit; disabled?; backendGet
+                  simp only [getReq, bind_run, emit_run] at hg
+                  cases hd : cacheDisabled env run o { s2 with events := Event.req "cache_get" x.id :: s2.events } with
+                  | none => simp [hd] at hg
+                  | some q4 =>
+                    obtain ⟨r4, s4⟩ := q4
+                    cases r4 with
+                    | error e => simp [hd] at hg
+                    | ok b4 =>
+                      simp only [hd] at hg
+                      cases b4 with
+                      | true => simp at hg
+                      | false =>
+                        simp only [Bool.false_eq_true, if_false] at hg
+                        obtain ⟨fp, t1, t2, h1, h2, h3⟩ := scripted_get_from_store env run x c o hk s4 s3 v hg
+                        exact ⟨fp, s4, t1, t2, h1, h2, h3⟩
+      | none =>
+        -- a miss: inner evaluation, then setReq
+        simp only [bind_run] at h
+        cases hx : run .evaluate x o s1 with
+        | none => simp [hx] at h
+        | some q =>
+          obtain ⟨r2, s2⟩ := q
+          cases r2 with
+          | error e => simp [hx] at h
+          | ok v =>
+            simp only [hx] at h
+            rcases setReq_value env run x c o s2 s' v w h with rfl | ⟨t1, t2, hg⟩
+            · exact Or.inl ⟨s1, s2, hx⟩
+            · right
+              obtain ⟨fp, u1, u2, h1, h2, h3⟩ := scripted_get_from_store env run x c o hk t1 t2 w hg
+              exact ⟨fp, t1, u1, u2, h1, h2, h3⟩
+
+/-! non-vacuity: under the script [miss, behave(set), failGet(read-back)] the evaluation still returns the value -/
+def c17Env : Env :=
+  { β := fun f a k => .ok (.app f a k), binds := fun _ _ => .error "x", ov := fun _ => default, ds := fun _ => default,
+    cacheKind := fun _ => .scripted }
+
+example : (match ev c17Env 20 .evaluate (.cached 2 (.option 1 "A" Option.none Option.none) 0) (.dict [("A", .int 4)])
+      { scripts := [(0, [.miss, .behave, .failGet])] } with
+    | some (.ok v, s) => decide (v = .int 4) && s.scripts == [(0, [])]
+    | _ => false) = true := by decide +kernel
+
 end Labrea
